@@ -23,13 +23,21 @@ open LyModel.Conc LyModel.Generated
     (The `->err` member of a thread's error record is exempt here: see `lock_discipline_full_fails`.) -/
 theorem lock_discipline : disciplineOk (guard false) lockFns = true := by decide
 
-/-- The full statement — storage inside the `err_ht` record array is only touched under the lock that protects the
-    array — is false of the code (finding F8) … -/
-theorem lock_discipline_full_fails : ¬ disciplineOk (guard true) lockFns = true := by decide
+/-- The full statement demands in addition that storage *inside the `err_ht` record array* is only touched under the
+    lock that protects the array.  `Generated.ERR_REC_INLINE` says whether the thread records live in that array (it is
+    read off the `lyht_new` call in context.c).  On a tree where they do — the pinned one — the full discipline fails
+    (finding F8); on a tree where the table holds pointers to separately allocated records it holds. -/
+theorem lock_discipline_full_iff : disciplineOk (guard ERR_REC_INLINE) lockFns = !ERR_REC_INLINE := by decide
 
-/-- … and these are exactly the functions that use the pointer `ly_err_get_rec`/`ly_err_new_rec` returned after the
-    unlock. -/
+/-- The functions that break it are exactly those that use the pointer `ly_err_get_rec`/`ly_err_new_rec` returned
+    after the unlock. -/
 theorem lock_discipline_violators :
+    violators (guard ERR_REC_INLINE) lockFns =
+      if ERR_REC_INLINE then ["ly_err_first", "ly_err_last", "ly_err_move", "ly_err_clean", "log_store"] else [] := by
+  decide
+
+/-- (independent of the tree's current design) those five functions dereference the record pointer outside the lock -/
+theorem err_record_used_after_unlock :
     violators (guard true) lockFns = ["ly_err_first", "ly_err_last", "ly_err_move", "ly_err_clean", "log_store"] := by
   decide
 
@@ -132,53 +140,64 @@ theorem dict_linearizable_needs_discipline :
   revert this
   decide
 
-/-! ## (c) per-thread error records in a table whose record array moves -/
+/-! ## (c) per-thread error records in a table whose record array moves
+
+`inl` = the table stores the records themselves (`Generated.ERR_REC_INLINE`, what the driver uses for the
+correspondence with the code); `false` = it stores pointers to separately allocated records. -/
 
 /-- Error records of one thread are never observed by another — in every schedule of any number of threads, *as
     long as no pointer into a replaced record array is dereferenced* (the run does not end in `stalePointer`):
     whatever a thread reads through the pointer `ly_err_get_rec`/`ly_err_new_rec` gave it is its own record. -/
-theorem err_isolated_partial (sched : List (Nat × ErrStep)) (s : ErrState) (h : errRun errInit sched = .ok s) :
-    ∀ o ∈ s.obs, o.owner = o.thread :=
-  (errRun_inv (einv_init _ rfl) h).obsOk
+theorem err_isolated_partial (inl : Bool) (sched : List (Nat × ErrStep)) (s : ErrState)
+    (h : errRun inl errInit sched = .ok s) : ∀ o ∈ s.obs, o.owner = o.thread :=
+  (errRun_inv (einv_init inl _ rfl) h).obsOk
+
+/-- With separately allocated records the statement holds in full: every schedule runs through and is isolated. -/
+theorem err_isolated_heap (sched : List (Nat × ErrStep)) :
+    ∃ s, errRun false errInit sched = .ok s ∧ ∀ o ∈ s.obs, o.owner = o.thread := by
+  obtain ⟨s, h⟩ := errRun_heap errInit sched
+  exact ⟨s, h, err_isolated_partial false sched s h⟩
 
 /-- The record array is first replaced by the insert of the `staleThreshold`-th record; the number comes from the
     generated `LYHT_MIN_SIZE`, `LYHT_*_PERCENTAGE` and the `lyht_new(1, …, 1)` call in context.c. -/
 theorem stale_threshold_value : staleThreshold = 6 := by decide
 
 /-- With fewer than `staleThreshold` threads ever logging on the context no schedule whatsoever can go wrong. -/
-theorem err_safe_below_threshold (T : List Nat) (hT : T.length < staleThreshold) (sched : List (Nat × ErrStep))
-    (hs : ∀ x ∈ sched, x.1 ∈ T) : ∃ s, errRun errInit sched = .ok s ∧ ∀ o ∈ s.obs, o.owner = o.thread := by
-  obtain ⟨s, h, _⟩ := errRun_small hT sched hs (small_init T)
-  exact ⟨s, h, err_isolated_partial sched s h⟩
+theorem err_safe_below_threshold (inl : Bool) (T : List Nat) (hT : T.length < staleThreshold)
+    (sched : List (Nat × ErrStep)) (hs : ∀ x ∈ sched, x.1 ∈ T) :
+    ∃ s, errRun inl errInit sched = .ok s ∧ ∀ o ∈ s.obs, o.owner = o.thread := by
+  obtain ⟨s, h, _⟩ := errRun_small inl hT sched hs (small_init T)
+  exact ⟨s, h, err_isolated_partial inl sched s h⟩
 
 def endsStale : Except ConcErr ErrState → Bool
   | .error .stalePointer => true
   | .ok _ => false
 
 /-- The schedule of F8, produced by the model for `staleThreshold` threads that each only call the logger and
-    `ly_err_last`: it is an interleaving of their programs and it ends in a dereference of a pointer into the freed
-    array.  `harness/wb_log.c` replays exactly this schedule on the code under ASan. -/
+    `ly_err_first`: it is an interleaving of their programs and, with the records stored in the array, it ends in a
+    dereference of a pointer into the freed array.  `harness/wb_log.c` replays exactly this schedule on the code under
+    ASan. -/
 theorem err_stale_schedule :
     (stalePrograms staleThreshold).length = staleThreshold ∧
     Interleaving (stalePrograms staleThreshold) (staleSchedule staleThreshold) ∧
-    endsStale (errRun errInit (staleSchedule staleThreshold)) = true := by
+    endsStale (errRun true errInit (staleSchedule staleThreshold)) = true := by
   refine ⟨by decide, ?_, by decide⟩
   rw [stale_threshold_value]
   repeat (first | exact .done _ (by decide) | refine .step _ _ _ _ _ (by rfl) ?_)
 
-/-- Hence the full statement — every interleaving of threads that log and read their errors runs without touching
-    freed memory — is false (F8). -/
+/-- Hence, for records stored in the array, the full statement — every interleaving of threads that log and read
+    their errors runs without touching freed memory — is false (F8). -/
 theorem err_stale_pointer_fails :
     ¬ ∀ (progs : List (List ErrStep)) (sched : List (Nat × ErrStep)), Interleaving progs sched →
-        ∃ s, errRun errInit sched = .ok s := by
+        ∃ s, errRun true errInit sched = .ok s := by
   intro h
   obtain ⟨s, hs⟩ := h _ _ err_stale_schedule.2.1
   have := err_stale_schedule.2.2
   rw [hs] at this
   cases this
 
-/-- non-vacuity of `err_isolated_partial`: five threads log and read back interleaved; each sees its own list. -/
-example : ∃ s, errRun errInit
+/-- non-vacuity of `err_isolated_partial`: three threads log and read back interleaved; each sees its own list. -/
+example : ∃ s, errRun true errInit
       [(0, .getRec), (1, .getRec), (0, .newRecIfNull), (1, .newRecIfNull), (1, .store 11), (0, .store 10),
        (2, .getRec), (2, .newRecIfNull), (2, .store 12), (0, .getRec), (1, .getRec), (1, .read), (0, .read)] = .ok s ∧
     s.obs = [⟨1, 1, [11]⟩, ⟨0, 0, [10]⟩] := ⟨_, rfl, by decide⟩
